@@ -212,7 +212,7 @@ def cbmc_cmd(h, wd, witness_define, trace=True):
     if h.paths: cmd += ['--paths', 'lifo']     # path-wise symbolic execution: control flow (hence every pointer) is concrete on each path, data stays symbolic; one SAT query per path
     if trace: cmd += ['--trace']
     if h.backend == 'z3': cmd += ['--z3']
-    elif h.backend == 'cvc5': cmd += ['--cvc5']
+    elif h.backend in ('cvc5', 'cvc5int'): cmd += ['--cvc5']
     elif h.backend == 'kissat': cmd += ['--external-sat-solver', 'kissat']
     elif h.backend in ('cadical', None): cmd += ['--sat-solver', 'cadical']      # default back end: cadical (minisat stalled on single path queries of the heap harnesses: 10 s vs 0.07 s)
     elif h.backend == 'minisat': pass
@@ -329,7 +329,8 @@ def run_harness(h, tier, outdir):
     res['runs'] = []
     for tag, wdef in runs:
         cmd = cbmc_cmd(h, wd, wdef, trace=not h.paths)      # path mode: no trace on the first run (trace construction for the witness of every path dominates); re-run with --trace on a real failure
-        r = run_cmd(cmd, min(h.timeout, int(os.environ.get('VERIF_TIMEOUT', '100000'))), h.mem_gb, cwd=wd)
+        env = dict(os.environ, PATH=os.path.join(TOOLS, 'shim') + ':' + os.environ.get('PATH', '')) if h.backend == 'cvc5int' else None
+        r = run_cmd(cmd, min(h.timeout, int(os.environ.get('VERIF_TIMEOUT', '100000'))), h.mem_gb, cwd=wd, env=env)
         if h.paths and not r['timeout']:
             v0, p0, _ = parse_cbmc(r['out'])
             if any(p['status'] != 'SUCCESS' and not p['desc'].startswith('witness') for p in p0):
